@@ -1,6 +1,7 @@
 package main
 
 import (
+	"strconv"
 	"go/ast"
 	"go/types"
 	"golang.org/x/tools/go/packages"
@@ -523,6 +524,36 @@ func selectLits(p *packages.Package, fd *ast.FuncDecl, sel string) []*ast.FuncLi
 			})
 		}
 		visit(fd.Body, true)
+	case strings.HasPrefix(sel, "var:"):
+		// name := func(...) {...}
+		want := strings.TrimPrefix(sel, "var:")
+		ast.Inspect(fd.Body, func(m ast.Node) bool {
+			if as, ok := m.(*ast.AssignStmt); ok && len(as.Lhs) == 1 && len(as.Rhs) == 1 {
+				if id, ok := as.Lhs[0].(*ast.Ident); ok && id.Name == want {
+					if l, ok := as.Rhs[0].(*ast.FuncLit); ok {
+						out = append(out, l)
+					}
+				}
+			}
+			return true
+		})
+	case strings.HasPrefix(sel, "key:"):
+		// X["K"] = reflect.ValueOf(func(...) {...})
+		want := strings.TrimPrefix(sel, "key:")
+		ast.Inspect(fd.Body, func(m ast.Node) bool {
+			if as, ok := m.(*ast.AssignStmt); ok && len(as.Lhs) == 1 && len(as.Rhs) == 1 {
+				if ix, ok := as.Lhs[0].(*ast.IndexExpr); ok {
+					if bl, ok := ix.Index.(*ast.BasicLit); ok && bl.Value == strconv.Quote(want) {
+						if c, ok := as.Rhs[0].(*ast.CallExpr); ok && len(c.Args) == 1 {
+							if l, ok := c.Args[0].(*ast.FuncLit); ok {
+								out = append(out, l)
+							}
+						}
+					}
+				}
+			}
+			return true
+		})
 	case strings.HasPrefix(sel, "exec#"), strings.HasPrefix(sel, "makefunc#"):
 		var k int
 		kind := sel[:strings.Index(sel, "#")]
